@@ -266,6 +266,9 @@ def check(ctx, rep):
     hash_order_obligations(ctx, rep, "R07q")
     rep.rule("R07i", "= R10c: the listing kept for later requests is the final one (hidden names removed, merged, sorted) - never an intermediate list", floor=2)
     rep.rule("R07h", "the real-file-system VFS lists names exactly as the OS returns them (file-system decoding only): the selector built from a listed name is the name on disk", floor=1)
+    rep.rule("R07u", "the stat result handed to each candidate handler is the stat of the selector it is asked about: every acceptance test reads it "
+             "as that - a stat of a cut or rewritten selector makes members whose names have that shape unservable and drops them from listings", floor=1)
+    stat_of_the_asked_selector_obligations(ctx, rep, "R07u")
     rep.rule("R07f", "a name is appended to the file list exactly when the filter accepts it, once", floor=1)
     dirbase = ctx.cls("handlers.dir.DirHandler")
     if dirbase is None:
@@ -743,3 +746,63 @@ def link_decoding_obligations(ctx, rep, rule="R07o"):
         rep.add(rule, f"{func.qualname}: {norm(c)[:60]}", ok, ctx.where(func, c),
                 "" if ok else f"the link file is {why}: a Path= naming an entry whose name is not valid UTF-8 no longer equals the entry's selector "
                 "(which is the file-system decoding of the name) - Type=X does not hide it and Name= does not reach it", key=f"{rule}|{func.qualname}|{norm(c.func)}")
+
+
+def stat_of_the_asked_selector_obligations(ctx, rep, rule="R07u"):
+    """The stat result the multiplexer hands to each candidate handler describes the very selector the handler is asked about.
+    Every handler's acceptance test reads `self.statresult` as the stat of `self.selector` (S_ISREG / S_ISDIR on it); a stat of
+    anything else - the selector cut at a `?`, lower-cased, with a suffix dropped - makes an ordinary member whose name has
+    that shape unservable, and DirHandler.prep_entries then drops it from its directory's listing without a trace."""
+    from ..loader import norm as _norm
+
+    gh = ctx.func("handlers.HandlerMultiplexer.getHandler")
+    if gh is None:
+        rep.fail(rule, "HandlerMultiplexer.getHandler", detail="handler multiplexer not found")
+        return
+    rep.analysed(gh.qualname)
+    assigns = {}
+    for n in ast.walk(gh.node):
+        if isinstance(n, ast.Assign) and len(n.targets) == 1 and isinstance(n.targets[0], ast.Name):
+            assigns.setdefault(n.targets[0].id, []).append(n.value)
+    loopvars = {}
+    for n in ast.walk(gh.node):
+        if isinstance(n, ast.For) and isinstance(n.target, ast.Name):
+            loopvars[n.target.id] = n
+
+    def alias(e):
+        """follow `x = y` single assignments of plain names"""
+        seen = set()
+        while isinstance(e, ast.Name) and e.id not in seen:
+            seen.add(e.id)
+            vals = [v for v in assigns.get(e.id, []) if not (isinstance(v, ast.Constant) and v.value is None)]
+            if len(vals) == 1 and isinstance(vals[0], ast.Name):
+                e = vals[0]
+            else:
+                break
+        return e
+
+    n_sites = 0
+    for n in ast.walk(gh.node):
+        if not (isinstance(n, ast.Call) and isinstance(n.func, ast.Name) and n.func.id in loopvars and len(n.args) >= 5):
+            continue
+        n_sites += 1
+        sel, st = alias(n.args[0]), n.args[4]
+        problems = []
+        if isinstance(st, ast.Name):
+            vals = [v for v in assigns.get(st.id, []) if not (isinstance(v, ast.Constant) and v.value is None)]
+            stats = [v for v in vals if isinstance(v, ast.Call) and isinstance(v.func, ast.Attribute) and v.func.attr in ("stat", "lstat")]
+            if not vals:
+                problems.append(f"`{st.id}` is never set: every handler sees a missing file")
+            for v in vals:
+                if v not in stats:
+                    problems.append(f"`{st.id} = {_norm(v)[:50]}` is not a stat of the selector")
+                elif not v.args or _norm(alias(v.args[0])) != _norm(sel):
+                    problems.append(f"the handlers are asked about `{_norm(sel)}` but handed the stat of `{_norm(v.args[0])[:60] if v.args else ''}`: a name for which "
+                                    "the two differ is refused by every handler, so it cannot be fetched and is silently left out of its directory's listing")
+                elif v.func.attr == "lstat":
+                    problems.append("lstat: a symbolic link to a file or directory is accepted by no handler")
+        elif not (isinstance(st, ast.Constant) and st.value is None):
+            problems.append(f"the stat argument is `{_norm(st)[:50]}`")
+        rep.add(rule, f"getHandler: {_norm(n)[:60]}", not problems, ctx.where(gh, n), "; ".join(sorted(set(problems))), key=f"{rule}|getHandler|{n_sites}")
+    if not n_sites:
+        rep.fail(rule, "HandlerMultiplexer.getHandler", detail="no handler construction found in getHandler")
